@@ -48,7 +48,9 @@ type ReverseSuffixSetSearcher struct {
 	prefilter      prefilter.Prefilter
 	pikevm         *nfa.PikeVM
 	suffixLiterals *literal.Seq // All suffix literals
-	matchStartZero bool         // True if pattern starts with .* (match always starts at 0)
+	matchStartZero bool         // True if pattern is exactly `.*(?:lit1|lit2|...)` (see NewReverseSuffixSetSearcher): no DFA needed
+	lineBounded    bool         // True if no match can contain '\n' (see SetLineBounded)
+	fwdCachePool   sync.Pool
 	revCachePool   sync.Pool
 }
 
@@ -58,6 +60,11 @@ type ReverseSuffixSetSearcher struct {
 //   - Pattern must have 2-8 suffix literals
 //   - Each suffix literal must be >= 2 bytes (allows extensions like ".md")
 //   - Pattern must NOT be start-anchored (^)
+//
+// matchStartZero tells that the pattern is exactly a greedy `.*` (not matching
+// '\n') followed by an alternation of the suffix literals, see isDotStarLiteralSet.
+// Matches of such a pattern are found without the DFAs. It must be false for
+// every other pattern, including `.*?\.(txt|log)` and `.*[0-9]\.(txt|log)`.
 //
 // Returns nil if the optimization cannot be applied.
 func NewReverseSuffixSetSearcher(
@@ -109,8 +116,10 @@ func NewReverseSuffixSetSearcher(
 	// Create PikeVM for fallback
 	pikevm := nfa.NewPikeVM(forwardNFA)
 
-	// matchStartZero is true only when pattern has .* prefix (e.g., `.*\.(txt|log|md)`).
-	// Only OpStar(AnyChar) guarantees match starts at 0/at — skip reverse DFA.
+	// matchStartZero is true only when the pattern is exactly .* followed by the
+	// suffix literals (e.g., `.*\.(txt|log|md)`): the match starts at the beginning of
+	// the line and ends with the last literal on it. All other patterns are verified
+	// with the DFAs.
 	s := &ReverseSuffixSetSearcher{
 		forwardNFA:     forwardNFA,
 		reverseNFA:     reverseNFA,
@@ -121,200 +130,85 @@ func NewReverseSuffixSetSearcher(
 		suffixLiterals: suffixLiterals,
 		matchStartZero: matchStartZero,
 	}
+	s.fwdCachePool = sync.Pool{
+		New: func() any { return s.forwardDFA.NewCache() },
+	}
 	s.revCachePool = sync.Pool{
 		New: func() any { return s.reverseDFA.NewCache() },
 	}
 	return s, nil
 }
 
-// Find searches using Teddy suffix prefilter + reverse DFA.
-//
-// For greedy matching (like `.*`), we need to find the LAST matching suffix.
-// However, with multiple suffix lengths, we iterate through all candidates
-// and track the best (rightmost) match.
-// Includes anti-quadratic guard to prevent O(n^2) behavior with many suffix false positives.
-func (s *ReverseSuffixSetSearcher) Find(haystack []byte) *Match {
-	if len(haystack) == 0 {
-		return nil
-	}
-
-	// Acquire cache once for the entire candidate loop
-	revCache := s.revCachePool.Get().(*lazy.DFACache)
-	defer s.revCachePool.Put(revCache)
-
-	// For greedy matching, find the LAST suffix candidate
-	// We scan forward and keep track of the last valid match
-	var lastMatch *Match
-	start := 0
-	minStart := 0 // Anti-quadratic guard for reverse scans
-
-	for {
-		// Find next suffix candidate
-		pos := s.prefilter.Find(haystack, start)
-		if pos == -1 {
-			break
-		}
-
-		// Get the length of the matched suffix literal
-		suffixLen := s.getSuffixLen(haystack, pos)
-		if suffixLen == 0 {
-			start = pos + 1
-			continue
-		}
-
-		suffixEnd := pos + suffixLen
-		if suffixEnd > len(haystack) {
-			suffixEnd = len(haystack)
-		}
-
-		// For unanchored patterns, .* cannot cross \n boundaries.
-		// Match starts at the beginning of the line containing the suffix.
-		if s.matchStartZero {
-			matchStart := lineStartBefore(haystack, 0, pos)
-			lastMatch = NewMatch(matchStart, suffixEnd, haystack)
-		} else {
-			// Use reverse DFA with anti-quadratic guard to find match start
-			matchStart := s.reverseDFA.SearchReverseLimited(revCache, haystack, 0, suffixEnd, minStart)
-			if matchStart == lazy.SearchReverseLimitedQuadratic {
-				// Quadratic behavior detected - fall back to PikeVM
-				pStart, pEnd, found := s.pikevm.Search(haystack)
-				if found {
-					return NewMatch(pStart, pEnd, haystack)
-				}
-				return lastMatch
-			}
-			if matchStart >= 0 {
-				lastMatch = NewMatch(matchStart, suffixEnd, haystack)
-			}
-			// Update anti-quadratic guard
-			if suffixEnd > minStart {
-				minStart = suffixEnd
-			}
-		}
-
-		start = pos + 1
-		if start >= len(haystack) {
-			break
-		}
-	}
-
-	return lastMatch
+// SetLineBounded tells the searcher that no match of the pattern can contain '\n'
+// (the pattern has no literal, class or (?s:.) that matches it). A match that
+// starts on one line then ends on the same line, so once the first line holding a
+// match end is known the search for the match start can be confined to that line.
+func (s *ReverseSuffixSetSearcher) SetLineBounded(lineBounded bool) {
+	s.lineBounded = lineBounded
 }
 
-// FindAt searches for a match starting from position 'at'.
-// Includes anti-quadratic guard to prevent O(n^2) behavior with many suffix false positives.
-func (s *ReverseSuffixSetSearcher) FindAt(haystack []byte, at int) *Match {
-	if at >= len(haystack) {
+// Find searches using Teddy suffix prefilter + reverse DFA and returns the
+// leftmost match, see FindIndicesAt.
+func (s *ReverseSuffixSetSearcher) Find(haystack []byte) *Match {
+	start, end, found := s.FindIndicesAt(haystack, 0)
+	if !found {
 		return nil
 	}
+	return NewMatch(start, end, haystack)
+}
 
-	// Acquire cache once for the entire candidate loop
-	revCache := s.revCachePool.Get().(*lazy.DFACache)
-	defer s.revCachePool.Put(revCache)
-
-	searchStart := at
-	minStart := at // Anti-quadratic guard
-	for {
-		// Find next suffix candidate starting from searchStart
-		pos := s.prefilter.Find(haystack, searchStart)
-		if pos == -1 {
-			return nil
-		}
-
-		// Get the length of the matched suffix literal
-		suffixLen := s.getSuffixLen(haystack, pos)
-		if suffixLen == 0 {
-			searchStart = pos + 1
-			if searchStart >= len(haystack) {
-				return nil
-			}
-			continue
-		}
-
-		suffixEnd := pos + suffixLen
-		if suffixEnd > len(haystack) {
-			suffixEnd = len(haystack)
-		}
-
-		// For unanchored patterns, .* cannot cross \n boundaries.
-		// Match starts at the beginning of the line containing the suffix.
-		// For greedy semantics, find the LAST suffix on this line.
-		if s.matchStartZero {
-			matchStart := lineStartBefore(haystack, at, pos)
-			// Find line end
-			lineEndRel := bytes.IndexByte(haystack[pos:], '\n')
-			var lineEnd int
-			if lineEndRel == -1 {
-				lineEnd = len(haystack)
-			} else {
-				lineEnd = pos + lineEndRel
-			}
-			// Scan line for the last valid suffix candidate
-			lastSuffixEnd := suffixEnd
-			scan := pos + 1
-			for scan < lineEnd {
-				nextPos := s.prefilter.Find(haystack, scan)
-				if nextPos == -1 || nextPos >= lineEnd {
-					break
-				}
-				nextLen := s.getSuffixLen(haystack, nextPos)
-				if nextLen > 0 {
-					nextEnd := nextPos + nextLen
-					if nextEnd <= lineEnd {
-						lastSuffixEnd = nextEnd
-					}
-				}
-				scan = nextPos + 1
-			}
-			return NewMatch(matchStart, lastSuffixEnd, haystack)
-		}
-
-		// Use reverse DFA with anti-quadratic guard to find match start
-		matchStart := s.reverseDFA.SearchReverseLimited(revCache, haystack, at, suffixEnd, minStart)
-		if matchStart >= 0 {
-			return NewMatch(matchStart, suffixEnd, haystack)
-		}
-		if matchStart == lazy.SearchReverseLimitedQuadratic {
-			// Quadratic behavior detected - fall back to PikeVM
-			start, end, found := s.pikevm.SearchAt(haystack, at)
-			if found {
-				return NewMatch(start, end, haystack)
-			}
-			return nil
-		}
-
-		// Update anti-quadratic guard
-		if suffixEnd > minStart {
-			minStart = suffixEnd
-		}
-
-		searchStart = pos + 1
-		if searchStart >= len(haystack) {
-			return nil
-		}
+// FindAt searches for the leftmost match starting at or after position 'at',
+// see FindIndicesAt.
+func (s *ReverseSuffixSetSearcher) FindAt(haystack []byte, at int) *Match {
+	start, end, found := s.FindIndicesAt(haystack, at)
+	if !found {
+		return nil
 	}
+	return NewMatch(start, end, haystack)
 }
 
 // FindIndicesAt returns match indices - zero allocation version.
 // Includes anti-quadratic guard to prevent O(n^2) behavior with many suffix false positives.
 func (s *ReverseSuffixSetSearcher) FindIndicesAt(haystack []byte, at int) (start, end int, found bool) {
 	revCache := s.revCachePool.Get().(*lazy.DFACache)
+	fwdCache := s.fwdCachePool.Get().(*lazy.DFACache)
 	defer s.revCachePool.Put(revCache)
-	return s.findIndicesAtImpl(haystack, at, revCache)
+	defer s.fwdCachePool.Put(fwdCache)
+	return s.findIndicesAtImpl(haystack, at, fwdCache, revCache)
 }
 
-// FindIndicesAtWithCaches is like FindIndicesAt but uses an externally provided cache
+// FindIndicesAtWithCaches is like FindIndicesAt but uses externally provided caches
 // instead of pool.Get/Put. This eliminates per-call pool overhead in FindAll loops
-// where the caller already holds a cache for the entire iteration.
-func (s *ReverseSuffixSetSearcher) FindIndicesAtWithCaches(haystack []byte, at int, revCache *lazy.DFACache) (start, end int, found bool) {
-	if revCache == nil {
+// where the caller already holds caches for the entire iteration.
+func (s *ReverseSuffixSetSearcher) FindIndicesAtWithCaches(haystack []byte, at int, fwdCache, revCache *lazy.DFACache) (start, end int, found bool) {
+	if fwdCache == nil || revCache == nil {
 		return s.FindIndicesAt(haystack, at)
 	}
-	return s.findIndicesAtImpl(haystack, at, revCache)
+	return s.findIndicesAtImpl(haystack, at, fwdCache, revCache)
 }
 
-// findIndicesAtImpl is the shared implementation for FindIndicesAt and FindIndicesAtWithCaches.
-func (s *ReverseSuffixSetSearcher) findIndicesAtImpl(haystack []byte, at int, revCache *lazy.DFACache) (start, end int, found bool) {
+// findIndicesAtImpl is the shared implementation of Find, FindAt, FindIndicesAt
+// and FindIndicesAtWithCaches. It returns the leftmost-first match starting at or
+// after 'at', like every other engine.
+//
+// Algorithm:
+//  1. Teddy finds the positions where a suffix literal occurs, left to right.
+//     Every match ends with one of the literals, so every match ends at the end
+//     of such an occurrence.
+//  2. For each occurrence the reverse DFA, anchored at its end, decides whether a
+//     match ends there (anti-quadratic guard: minStart bounds the reverse scans).
+//  3. The first occurrence that holds a match end proves that a match exists and
+//     that none ends earlier. It does NOT give the match: another match may start
+//     further left and end at a later occurrence, and a greedy pattern extends
+//     past the first possible end (`[0-9][a-z.]+(?:\.txt|\.csv)` on "1a.txt.csv").
+//     The DFAs of the whole pattern give the exact bounds: an unanchored forward
+//     search finds the end of the leftmost-first match, a reverse search from
+//     there its start.
+//
+// The forward search need not start at 'at': for patterns that cannot match '\n'
+// the match lies on the candidate's line (SetLineBounded). If the reverse scan of
+// step 2 already reached that lower bound, its result is the match start.
+func (s *ReverseSuffixSetSearcher) findIndicesAtImpl(haystack []byte, at int, fwdCache, revCache *lazy.DFACache) (start, end int, found bool) {
 	if at >= len(haystack) {
 		return -1, -1, false
 	}
@@ -328,72 +222,103 @@ func (s *ReverseSuffixSetSearcher) findIndicesAtImpl(haystack []byte, at int, re
 			return -1, -1, false
 		}
 
-		// Get the length of the matched suffix literal
-		suffixLen := s.getSuffixLen(haystack, pos)
-		if suffixLen == 0 {
-			searchStart = pos + 1
-			if searchStart >= len(haystack) {
-				return -1, -1, false
-			}
-			continue
-		}
-
-		suffixEnd := pos + suffixLen
-		if suffixEnd > len(haystack) {
-			suffixEnd = len(haystack)
-		}
-
-		// For unanchored patterns, .* cannot cross \n boundaries.
-		// Match starts at the beginning of the line containing the suffix.
-		// For greedy semantics, find the LAST suffix on this line.
 		if s.matchStartZero {
-			matchStart := lineStartBefore(haystack, at, pos)
-			lineEndRel := bytes.IndexByte(haystack[pos:], '\n')
-			var lineEnd int
-			if lineEndRel == -1 {
-				lineEnd = len(haystack)
-			} else {
-				lineEnd = pos + lineEndRel
+			if suffixLen := s.getSuffixLen(haystack, pos); suffixLen > 0 {
+				start, end = s.dotStarMatch(haystack, at, pos, pos+suffixLen)
+				return start, end, true
 			}
-			lastSuffixEnd := suffixEnd
-			scan := pos + 1
-			for scan < lineEnd {
-				nextPos := s.prefilter.Find(haystack, scan)
-				if nextPos == -1 || nextPos >= lineEnd {
-					break
-				}
-				nextLen := s.getSuffixLen(haystack, nextPos)
-				if nextLen > 0 {
-					nextEnd := nextPos + nextLen
-					if nextEnd <= lineEnd {
-						lastSuffixEnd = nextEnd
-					}
-				}
-				scan = nextPos + 1
-			}
-			return matchStart, lastSuffixEnd, true
 		}
 
-		// Use reverse DFA with anti-quadratic guard to find match start
-		matchStart := s.reverseDFA.SearchReverseLimited(revCache, haystack, at, suffixEnd, minStart)
-		if matchStart >= 0 {
-			return matchStart, suffixEnd, true
-		}
-		if matchStart == lazy.SearchReverseLimitedQuadratic {
-			// Quadratic behavior detected - fall back to PikeVM
-			return s.pikevm.SearchAt(haystack, at)
+		// Check every literal that occurs at pos: each one is a possible match end.
+		maxEnd := minStart
+		for i := 0; i < s.suffixLiterals.Len() && !s.matchStartZero; i++ {
+			lit := s.suffixLiterals.Get(i).Bytes
+			if !bytes.HasPrefix(haystack[pos:], lit) {
+				continue
+			}
+			suffixEnd := pos + len(lit)
+
+			// Use reverse DFA with anti-quadratic guard to decide whether a match ends here
+			matchStart := s.reverseDFA.SearchReverseLimited(revCache, haystack, at, suffixEnd, minStart)
+			if matchStart == lazy.SearchReverseLimitedQuadratic {
+				// Quadratic behavior detected - one forward search decides the whole query
+				return s.searchSpan(haystack, at, -1, fwdCache, revCache)
+			}
+			if matchStart >= 0 {
+				// A match ends at suffixEnd and no match ends at an occurrence that
+				// starts before pos. A match that cannot contain '\n' therefore starts
+				// after the last '\n' before pos; in any case it starts at or after
+				// 'at', and not after matchStart.
+				from := at
+				if s.lineBounded {
+					from = lineStartBefore(haystack, at, pos)
+				}
+				return s.searchSpan(haystack, from, matchStart, fwdCache, revCache)
+			}
+			if suffixEnd > maxEnd {
+				maxEnd = suffixEnd
+			}
 		}
 
 		// Update anti-quadratic guard
-		if suffixEnd > minStart {
-			minStart = suffixEnd
-		}
+		minStart = maxEnd
 
 		searchStart = pos + 1
 		if searchStart >= len(haystack) {
 			return -1, -1, false
 		}
 	}
+}
+
+// dotStarMatch returns the match of a pattern of the exact shape
+// `.*(?:lit1|lit2|...)` (matchStartZero) given the first literal occurrence
+// haystack[pos:suffixEnd] at or after 'at'. .* (AnyCharNotNL) cannot cross \n
+// boundaries, so the leftmost match lies on the line of that occurrence: it starts
+// at the beginning of the line (or at 'at') and, .* being greedy, ends with the
+// LAST literal occurrence on the line. No literal is a prefix of another one, so
+// at most one of them occurs at a position.
+func (s *ReverseSuffixSetSearcher) dotStarMatch(haystack []byte, at, pos, suffixEnd int) (start, end int) {
+	start = lineStartBefore(haystack, at, pos)
+	lineEnd := len(haystack)
+	if nl := bytes.IndexByte(haystack[pos:], '\n'); nl != -1 {
+		lineEnd = pos + nl
+	}
+	end = suffixEnd
+	for scan := pos + 1; scan < lineEnd; {
+		nextPos := s.prefilter.Find(haystack, scan)
+		if nextPos == -1 || nextPos >= lineEnd {
+			break
+		}
+		if nextLen := s.getSuffixLen(haystack, nextPos); nextLen > 0 {
+			end = nextPos + nextLen
+		}
+		scan = nextPos + 1
+	}
+	return start, end
+}
+
+// searchSpan returns the leftmost-first match that starts at or after 'from',
+// using the DFAs of the whole pattern: the unanchored forward DFA finds where the
+// leftmost-first match ends (greedy and lazy quantifiers honoured), the reverse
+// DFA anchored at that end finds where it starts.
+//
+// knownStart, if not negative, is a position at which a match is known to start:
+// the leftmost match then starts in [from, knownStart], and when both coincide
+// the reverse scan is not needed.
+func (s *ReverseSuffixSetSearcher) searchSpan(haystack []byte, from, knownStart int, fwdCache, revCache *lazy.DFACache) (start, end int, found bool) {
+	end = s.forwardDFA.SearchAt(fwdCache, haystack, from)
+	if end < 0 {
+		return -1, -1, false
+	}
+	if knownStart == from {
+		return from, end, true
+	}
+	start = s.reverseDFA.SearchReverse(revCache, haystack, from, end)
+	if start < 0 {
+		// The reverse DFA gave up (cache limits) - fall back to PikeVM
+		return s.pikevm.SearchAt(haystack, from)
+	}
+	return start, end, true
 }
 
 // IsMatch checks if the pattern matches using suffix set prefilter.
@@ -415,35 +340,32 @@ func (s *ReverseSuffixSetSearcher) IsMatch(haystack []byte) bool {
 			return false
 		}
 
-		suffixLen := s.getSuffixLen(haystack, pos)
-		if suffixLen == 0 {
-			start = pos + 1
-			if start >= len(haystack) {
-				return false
+		// Check every literal that occurs at pos: each one is a possible match end.
+		maxEnd := minStart
+		for i := 0; i < s.suffixLiterals.Len(); i++ {
+			lit := s.suffixLiterals.Get(i).Bytes
+			if !bytes.HasPrefix(haystack[pos:], lit) {
+				continue
 			}
-			continue
-		}
+			revEnd := pos + len(lit)
 
-		revEnd := pos + suffixLen
-		if revEnd > len(haystack) {
-			revEnd = len(haystack)
-		}
-
-		// Use reverse DFA with anti-quadratic guard to check if pattern matches
-		revResult := s.reverseDFA.SearchReverseLimited(revCache, haystack, 0, revEnd, minStart)
-		if revResult >= 0 {
-			return true
-		}
-		if revResult == lazy.SearchReverseLimitedQuadratic {
-			// Quadratic behavior detected - fall back to PikeVM
-			_, _, matched := s.pikevm.Search(haystack)
-			return matched
+			// Use reverse DFA with anti-quadratic guard to check if pattern matches
+			revResult := s.reverseDFA.SearchReverseLimited(revCache, haystack, 0, revEnd, minStart)
+			if revResult >= 0 {
+				return true
+			}
+			if revResult == lazy.SearchReverseLimitedQuadratic {
+				// Quadratic behavior detected - fall back to PikeVM
+				_, _, matched := s.pikevm.Search(haystack)
+				return matched
+			}
+			if revEnd > maxEnd {
+				maxEnd = revEnd
+			}
 		}
 
 		// Update anti-quadratic guard
-		if revEnd > minStart {
-			minStart = revEnd
-		}
+		minStart = maxEnd
 
 		start = pos + 1
 		if start >= len(haystack) {
